@@ -18,6 +18,19 @@
    only stores reachable from a non-mutating public operation are the two hint clears in
    Node.errorf / SignalEnum.errorf, guarded by "hint is set".
 
+   Process-global state.  The state of the model is meant to include every "process-global lazily
+   initialised table" reachable on a read path (a package-level slice or map filled on first use is
+   shared by ALL models of the process and is written by whichever read-only call needs it first).
+   The pinned tree has none: its package-level variables are the error sentinels, the two
+   special-attribute lookup maps and the six special attributes of special_attributes.go, and in
+   package dbc the keyword / punctuation / token / access-type tables and the well-known attribute
+   names and value lists; all are initialised at package initialisation and only read afterwards
+   (the DBC exporter passes the special attributes to newAttributeAssignment without addRef).  So
+   `state` has no such component and ro_no_write is unaffected.  The runtime part does not rely on
+   this reading: the deep snapshot covers every package-level variable of both packages (hook
+   generated from the sources of the tree under check) and the cold concurrent phase exercises
+   first use under the race detector.
+
    Handles are creation indexes (nat), names / ids / attribute handles / value handles are Z.
    Outputs are lists of Z (projections of what the Go call returns: values read, handles in
    the returned order, or -1 :: error route = entity kinds wrapping the error, innermost
